@@ -423,6 +423,63 @@ OneLevelCase(c) ==
              Chk("children-specs", Has(c.py, "child_specs") =>
                     [i \in DOMAIN c.py.child_specs |-> c.py.child_specs[i].nodes] = [i \in DOMAIN c.eng.children |-> c.eng.children[i].nodes]))
 
+\* ---- C19: optree dataclasses / partial ----------------------------------------------------------
+DSel(l, P(_)) == SelectSeq([i \in 1..Len(l) |-> i], LAMBDA i : P(l[i]))
+DataclassCase(c) ==
+  LET l == c.layout
+      rejOpt == \E i \in DOMAIN l : l[i].node /\ ~l[i].init
+      children == DSel(l, LAMBDA d : d.node /\ d.init)
+      metadata == DSel(l, LAMBDA d : d.init /\ ~d.node)
+  IN IF c.std_err # "" THEN Chk("rejected-like-dataclasses", c.err # "")           \* whatever dataclasses rejects, optree rejects
+     ELSE IF rejOpt THEN Chk("non-init-pytree-node-rejected", c.err = "Type")
+     ELSE Chk("accepted", c.err = "") \o
+          (IF c.err # "" THEN <<>> ELSE
+             Chk("usable", ~Has(c, "use_err")) \o
+             (IF Has(c, "use_err") THEN <<>> ELSE
+                Chk("children-in-declaration-order", c.children = children) \o
+                Chk("metadata-fields", c.metadata = metadata /\ c.meta_values_ok) \o
+                Chk("leaves", c.leaves_ok /\ c.one_level_children_ok) \o
+                Chk("entries-address-children-by-name", c.accessors_ok /\ c.entry_class = "DataclassEntry") \o
+                Chk("round-trip", c.rebuilt_type_ok /\ c.rebuilt_equal /\ c.map_type_ok) \o
+                Chk("post_init-rerun", c.post_init_rerun) \o
+                Chk("node-only-in-its-namespace", c.leaf_in_other_namespace) \o
+                Chk("decorating-twice-rejected", c.twice_rejected) \o
+                (IF Has(c, "same_as_stdlib") THEN Chk("same-class-as-dataclasses", c.same_as_stdlib) ELSE <<>>)))
+PartialCase(c) ==
+  Chk("flattens-to-(args,keywords)-in-every-namespace",
+      c["leaves_ok[]"] /\ c["leaves_ok[a]"] /\ c["leaves_ok[never-used-namespace]"]
+      /\ c["children_ok[]"] /\ c["children_ok[a]"] /\ c["children_ok[never-used-namespace]"]
+      /\ c["entries[]"] = <<"args", "keywords">>) \o
+  Chk("metadata-is-the-callable", c.metadata_is_func) \o
+  Chk("never-merged-with-nested-partial", c.not_merged) \o
+  Chk("rebuilt-partial-calls-with-mapped-arguments", c.mapped_type /\ c.call_after_map) \o
+  Chk("round-trip", c.roundtrip)
+
+\* ---- C20: tree_ravel / unravel -------------------------------------------------------------------
+RavelCase(c) ==
+  Chk("no-error", c.err = "") \o
+  (IF c.err # "" THEN <<>> ELSE
+     Chk("flat-is-1d-of-total-length", c.flat_is_1d /\ c.flat_len = c.total) \o
+     Chk("flat-is-concatenation-in-leaf-order", c.flat_values_ok) \o
+     Chk("flat-dtype-is-the-promotion", c.flat_dtype_ok) \o
+     Chk("unravel(ravel(t))=t", c.structure_ok /\ c.shapes_ok /\ c.dtypes_ok /\ c.values_ok) \o
+     (IF c.ls = <<>> THEN Chk("empty-tree", c.empty_ok)
+      ELSE Chk("ravel(unravel(v))=v", c.ravel_unravel_v) \o
+           Chk("wrong-shape-rejected", c.wrong_len_rejected /\ c.wrong_rank_rejected) \o
+           Chk("wrong-dtype-rejected-iff-mixed", c.mixed => c.wrong_dtype_rejected)))
+
+\* ---- C14: immutability along heap histories ------------------------------------------------------
+HeapCase(c) ==
+  Concat([j \in DOMAIN c.steps |->
+     LET st == c.steps[j] IN
+     Chk(st.a \o ":treespec-unchanged", st.spec_changed = <<>>) \o
+     Chk(st.a \o ":operand-treespecs-unchanged", st.operand_changed = <<>>) \o
+     Chk(st.a \o ":inputs-not-mutated", ~st.inputs_mutated /\ ~st.leaf_list_mutated) \o
+     Chk(st.a \o ":no-unexpected-error", st.err = "") \o
+     (IF Has(st, "leaves_retained") THEN Chk(st.a \o ":no-reference-to-leaves", st.leaves_retained = 0) ELSE <<>>)])
+HeapGc(c) == Chk("cycles-through-metadata-collected", c.metadata_cycles_collected = 3 /\ c.factory_cycle_collected) \o
+             Chk("no-refcount-leak", c.class_refcount_delta = 0)
+
 \* the same tree under two option sets
 XOptCase(c) ==
   LET exp == SpecEq(c.sa, c.sb) IN
@@ -493,6 +550,14 @@ Verdict(c) ==
     [] c.op = "map" -> MapCase(c)
     [] c.op = "transpose" -> TransposeCase(c)
     [] c.op = "pickle" -> PickleCase(c)
+    [] c.op = "dataclass" -> DataclassCase(c)
+    [] c.op = "partial" -> PartialCase(c)
+    [] c.op = "dataclass-args" -> Chk("empty-namespace", c.res["empty-namespace"] = "Value") \o Chk("non-string-namespace", c.res["non-string-namespace"] = "Type")
+                                  \o Chk("non-class", c.res["non-class"] = "Type")
+    [] c.op = "heap" -> HeapCase(c)
+    [] c.op = "heap-gc" -> HeapGc(c)
+    [] c.op = "ravel" -> RavelCase(c)
+    [] c.op = "ravel-backends" -> Chk("numpy-jax-torch-available", Len(c.available) = 3)
     [] c.op = "classify" -> ClassifyCase(c)
     [] c.op = "classify-real" -> ClassifyReal(c)
     [] c.op = "cache-history" -> CacheHistory(c)
